@@ -20,8 +20,8 @@ package gossip
 // its own key, no entry is newer than the view's version, versions identify
 // entries.
 //@ pure nsInv(n *nodeState) bool = n.Entries != nil && allocated(n.Entries)
-//@    && (forall k string :: k in n.Entries ==> n.Entries[k].Key == k && 1 <= n.Entries[k].Version && n.Entries[k].Version <= n.Version)
-//@    && (forall k1 string, k2 string :: k1 in n.Entries && k2 in n.Entries && k1 != k2 ==> n.Entries[k1].Version != n.Entries[k2].Version)
+//@    && (forall k string {n.Entries[k]} :: k in n.Entries ==> n.Entries[k].Key == k && 1 <= n.Entries[k].Version && n.Entries[k].Version <= n.Version)
+//@    && (forall k1 string, k2 string {n.Entries[k1], n.Entries[k2]} :: k1 in n.Entries && k2 in n.Entries && k1 != k2 ==> n.Entries[k1].Version != n.Entries[k2].Version)
 
 // The cluster state: the local node is always known, is never unreachable and
 // never expires; every node is stored under its own id; nodes share nothing.
